@@ -51,26 +51,52 @@ def specRoundInt (a : Int) (k : Nat) : Int :=
 /-- spec-level values -/
 inductive SVal
   | int (v : Int) | bool (b : Bool) | float (bits : Nat) | str (s : String) | pair (a b : SVal)
+  | cplx (re im : Nat)   -- a complex number, both parts as bit patterns
+  | cplxAny              -- "a complex number" (value outside this specification)
 deriving DecidableEq, Repr, Inhabited
 
 abbrev SRes := Except Err SVal
 
-/-- a numeric operand as the spec sees it: an exact integer or a double -/
-inductive Num | i (v : Int) | f (bits : Nat)
+/-- a numeric operand as the spec sees it: an exact integer, a double, or a complex number (two doubles) -/
+inductive Num | i (v : Int) | f (bits : Nat) | c (re im : Nat)
 deriving DecidableEq, Repr
 
 def numOf : Obj → Option Num
   | .int v | .big v => some (.i v)
   | .bool b => some (.i (if b then 1 else 0))
   | .float b => some (.f b)
+  | .cplx re im => some (.c re im)
   | _ => none
 
 def Num.toFloat : Num → Except Err Nat
   | .f b => .ok b
   | .i v => specIntToFloat v
+  | .c _ _ => .error .type       -- float(complex) is a TypeError
+
+/-- Python converts a real operand of a complex operation to `complex(float(x), 0.0)` -/
+def Num.toComplex : Num → Except Err (Nat × Nat)
+  | .c re im => .ok (re, im)
+  | .f b => .ok (b, 0)
+  | .i v => do let b ← specIntToFloat v; return (b, 0)
+
+def Num.isComplex : Num → Bool | .c _ _ => true | _ => false
+
+/-- Python `complex == x` (Objects/complexobject.c complex_richcompare): an int is compared exactly
+with the real part when the imaginary part is zero; a float with the real part; `none` for NaN never arises:
+equality is simply false -/
+def specComplexEq (fp : FP) (re im : Nat) : Num → Bool
+  | .i y => fp.eq im 0 && specCmpFloatInt re y == some .eq
+  | .f y => fp.eq re y && fp.eq im 0
+  | .c r2 i2 => fp.eq re r2 && fp.eq im i2
 
 def specCmp (fp : FP) (op : CmpOp) (a b : Num) : SRes :=
   match a, b with
+  | .c re im, y | y, .c re im =>
+    -- no ordering on complex numbers; == and != are symmetric
+    match op with
+    | .eq => .ok (.bool (specComplexEq fp re im y))
+    | .ne => .ok (.bool (!specComplexEq fp re im y))
+    | _ => .error .type
   | .i x, .i y => .ok (.bool (op.holds (some (compare x y))))
   | .f x, .i y => .ok (.bool (op.holds (specCmpFloatInt x y)))
   | .i x, .f y => .ok (.bool (op.swap.holds (specCmpFloatInt y x)))
@@ -118,14 +144,15 @@ def specIntTrueDiv (x y : Int) : Except Err Nat :=
   | some b => .ok b
   | none => .error .overflow
 
-/-- float ** float where Python defines more than the IEEE function -/
-def specPow (fp : FP) (x y : Nat) : Except Err Nat :=
-  -- 0.0 ** negative → ZeroDivisionError; negative ** non-integer → complex (not modelled: marked by `.type`);
-  -- finite operands with infinite result → OverflowError
+/-- float ** float where Python defines more than the IEEE function (Objects/floatobject.c float_pow):
+0.0 ** negative finite → ZeroDivisionError; negative finite ** non-integer → a complex number;
+finite operands with an infinite result → OverflowError -/
+def specPow (fp : FP) (x y : Nat) : SRes :=
   if isZero x && fp.lt y 0 && !isInf y then .error .zeroDiv
+  else if fp.lt x 0 && !isInf x && !isInf y && !isNaN y && fp.floor y != y then .ok .cplxAny
   else
     let r := fp.pow x y
-    if isInf r && !isInf x && !isInf y && !isZero x then .error .overflow else .ok r
+    if isInf r && !isInf x && !isInf y && !isZero x then .error .overflow else .ok (.float r)
 
 def specBin (fp : FP) (op : BinOp) (a b : Num) : SRes :=
   match a, b with
@@ -139,8 +166,18 @@ def specBin (fp : FP) (op : BinOp) (a b : Num) : SRes :=
       if y ≥ 0 then .ok (.int (x ^ y.toNat)) else do
         let fx ← specIntToFloat x
         let fy ← specIntToFloat y
-        (specPow fp fx fy).map .float
-  | _, _ => do
+        specPow fp fx fy
+  | _, _ =>
+   if a.isComplex || b.isComplex then do
+    -- complex arithmetic on the four parts (Objects/complexobject.c _Py_c_sum/_Py_c_diff/_Py_c_prod)
+    let x ← a.toComplex
+    let y ← b.toComplex
+    match op with
+    | .add => return .cplx (fp.add x.1 y.1) (fp.add x.2 y.2)
+    | .sub => return .cplx (fp.sub x.1 y.1) (fp.sub x.2 y.2)
+    | .mul => return .cplx (fp.sub (fp.mul x.1 y.1) (fp.mul x.2 y.2)) (fp.add (fp.mul x.1 y.2) (fp.mul x.2 y.1))
+    | _ => return .cplxAny
+   else do
     let x ← a.toFloat
     let y ← b.toFloat
     match op with
@@ -150,7 +187,7 @@ def specBin (fp : FP) (op : BinOp) (a b : Num) : SRes :=
     | .truediv => if isZero y then .error .zeroDiv else return .float (fp.div x y)
     | .floordiv => do let (q, _) ← specFloatDivMod fp x y; return .float q
     | .mod => (specFloatMod x y).map .float
-    | .pow => (specPow fp x y).map .float
+    | .pow => specPow fp x y
 
 def specDivmod (fp : FP) (a b : Num) : SRes :=
   match a, b with
@@ -202,27 +239,6 @@ def specStr (a : Nat) : String :=
         mant ++ "e" ++ (if x < 0 then "-" else "+") ++ (if x.natAbs < 10 then "0" else "") ++ toString x.natAbs
     sgn ++ body
 
-/-! ### known-finding predicates (regions where the unchanged code departs from the property) -/
-
-/-- C15-K01: arithmetic (not comparison, not true division) between a float and an int whose
-nearest double is infinite raises TypeError instead of OverflowError -/
-def kfHugeIntArith (a b : Obj) : Bool :=
-  let huge (o : Obj) : Bool := match o with | .big v => (rneInt v).isNone | _ => false
-  let isF (o : Obj) : Bool := match o with | .float _ => true | _ => false
-  (huge a && isF b) || (isF a && huge b)
-
-/-- C15-K02: int / int is computed by rounding both operands first -/
-def kfIntTrueDiv (a b : Obj) : Bool :=
-  match intOf a, intOf b with
-  | some x, some y => x.natAbs > 2^53 || y.natAbs > 2^53
-  | _, _ => false
-
-/-- C15-K03: pow follows math.Pow where Python raises or returns a complex number -/
-def kfPow (fp : FP) (x y : Nat) : Bool :=
-  (isZero x && fp.lt y 0 && !isInf y)
-  || (let r := fp.pow x y; isInf r && !isInf x && !isInf y && !isZero x)
-  || (fp.lt x 0 && !isInf x && !isInf y && !isNaN y && fp.floor y != y)
-
 /-- `m·2^e` is `n` correctly rounded to 53 bits: within half a unit in the last place (`2^e`),
 an exact tie only with an even mantissa -/
 def IsNearestEven (n m e : Nat) : Prop :=
@@ -232,5 +248,35 @@ def IsNearestEven (n m e : Nat) : Prop :=
 /-- `R` is `a` rounded to a multiple of `s`, halves to the even multiple -/
 def IsRoundHalfEven (a R s : Int) : Prop :=
   s ∣ R ∧ 2 * (R - a) ≤ s ∧ 2 * (a - R) ≤ s ∧ ((2 * (R - a) = s ∨ 2 * (a - R) = s) → (R / s) % 2 = 0)
+
+/-! ### the abstract hardware contract (hypotheses of the floor-division / rounding theorems) -/
+
+/-- exact rational value of a finite double (`none` for inf / nan) -/
+def valOf (b : Nat) : Option Rat :=
+  match decodeF b with
+  | .fin neg m e => some (ratOf neg m e)
+  | _ => none
+
+/-- What the theorems about `//`, `%`, `divmod` and `round` assume of the hardware / Go `math` operations.
+Every clause is a consequence of IEEE-754 correct rounding (C `fmod`, `floor` and `rint` are exact by
+definition; a sum of two doubles of opposite sign cannot overflow, never underflows to zero unless it
+is zero, and rounding is monotone).  NOT proved here: trusted, and exercised by the correspondence run. -/
+structure FPContract (fp : FP) : Prop where
+  /-- `math.Mod` is exact: `a = t·b + r` for an integer `t`, `|r| < |b|`, `r` has the sign of `a` (or is zero) -/
+  fmod_exact : ∀ a b va vb, valOf a = some va → valOf b = some vb → vb ≠ 0 →
+    ∃ (r : Rat) (t : Int), valOf (fp.fmod a b) = some r ∧ va = (t : Rat) * vb + r ∧ r * r < vb * vb ∧
+      (0 ≤ va → 0 ≤ r) ∧ (va ≤ 0 → r ≤ 0)
+  /-- `<` on finite doubles is the exact comparison of their values -/
+  lt_exact : ∀ a b va vb, valOf a = some va → valOf b = some vb → fp.lt a b = decide (va < vb)
+  /-- `math.Floor` is exact -/
+  floor_exact : ∀ a va, valOf a = some va → valOf (fp.floor a) = some ((va.floor : Int) : Rat)
+  /-- `math.RoundToEven` is exact (nearest integer, halves to even) and keeps the sign bit -/
+  roundEven_exact : ∀ a va, valOf a = some va →
+    valOf (fp.roundEven a) = some ((roundHalfEvenRat va : Int) : Rat) ∧ signBit (fp.roundEven a) = signBit a
+  /-- `x + y` for finite operands of opposite sign: finite, zero only if exactly zero, and monotone
+  with respect to every representable bound of the exact sum -/
+  add_opposite : ∀ x y vx vy, valOf x = some vx → valOf y = some vy → vx * vy ≤ 0 →
+    ∃ z, valOf (fp.add x y) = some z ∧ (vx + vy ≠ 0 → z ≠ 0) ∧
+      ∀ w vw, valOf w = some vw → (vw ≤ vx + vy → vw ≤ z) ∧ (vx + vy ≤ vw → z ≤ vw)
 
 end GPy.C15
